@@ -133,3 +133,114 @@ func VerifH_c14_programs() {
 		vAssert("final-dbsize", vIsInt(vCmd(conns[i], "DBSIZE"), int64(len(dbs[cm[i].db]))))
 	}
 }
+
+// VerifH_c14_multi_select: SELECT queued inside a transaction takes effect
+// when EXEC runs it: the commands queued after it read and write the newly
+// selected database (not the one selected when they were queued), the
+// connection stays in that database afterwards, and a discarded transaction
+// leaves the selection alone.  A second connection observes each database.
+func VerifH_c14_multi_select() {
+	VerifSetup()
+	disp := vNewServer()
+	c := vNewClientOn(disp)
+	obs := vNewClientOn(disp)
+	var dbs [16]map[string]string
+	for i := range dbs {
+		dbs[i] = map[string]string{}
+	}
+	indexes := []int{0, 1, 15}
+	vCmd(c, "SELECT", "15")
+	vCmd(c, "SET", "k", "a15")
+	dbs[15]["k"] = "a15"
+	vCmd(obs, "SET", "k", "b0")
+	dbs[0]["k"] = "b0"
+	cur := 15
+	discard := vBool("discard")
+	vAssert("multi-ok", vIsOK(vCmd(c, "MULTI")))
+	n := 3 + vTier()
+	type step struct {
+		op, idx int
+		v       string
+	}
+	var steps []step
+	for i := 0; i < n; i++ {
+		s := step{op: vChoice("op", 6)}
+		var q respValue
+		switch s.op {
+		case 0:
+			s.idx = indexes[vChoice("idx", len(indexes))]
+			q = vCmd(c, "SELECT", vItoa(s.idx))
+		case 1:
+			s.v = "v" + vItoa(i)
+			q = vCmd(c, "SET", "k", s.v)
+		case 2:
+			q = vCmd(c, "GET", "k")
+		case 3:
+			q = vCmd(c, "DEL", "k")
+		case 4:
+			q = vCmd(c, "DBSIZE")
+		case 5:
+			q = vCmd(c, "FLUSHDB")
+		}
+		vAssert("queued", vIsQueued(q))
+		vAssert("queueing-does-not-select", c.selectedDb == 15)
+		steps = append(steps, s)
+	}
+	if discard {
+		vAssert("discard-ok", vIsOK(vCmd(c, "DISCARD")))
+		vAssert("discarded-select-has-no-effect", c.selectedDb == 15 && vIsBulk(vCmd(c, "GET", "k"), "a15"))
+		return
+	}
+	r := vCmd(c, "EXEC")
+	a, ok := vArrayOf(r)
+	vAssert("exec-one-reply-per-step", ok && len(a) == n)
+	if !ok || len(a) != n {
+		return
+	}
+	for i, s := range steps {
+		switch s.op {
+		case 0:
+			vAssert("exec-select-ok", vIsOK(a[i]))
+			cur = s.idx
+		case 1:
+			vAssert("exec-set-ok", vIsOK(a[i]))
+			dbs[cur]["k"] = s.v
+		case 2:
+			if v, ok := dbs[cur]["k"]; ok {
+				vAssert("exec-get-reads-the-selected-database", vIsBulk(a[i], v))
+			} else {
+				vAssert("exec-get-missing-in-the-selected-database", vIsNil(a[i]))
+			}
+		case 3:
+			if _, ok := dbs[cur]["k"]; ok {
+				vAssert("exec-del-1", vIsInt(a[i], 1))
+				delete(dbs[cur], "k")
+			} else {
+				vAssert("exec-del-0", vIsInt(a[i], 0))
+			}
+		case 4:
+			vAssert("exec-dbsize-of-the-selected-database", vIsInt(a[i], int64(len(dbs[cur]))))
+		case 5:
+			vAssert("exec-flushdb-ok", vIsOK(a[i]))
+			dbs[cur] = map[string]string{}
+		}
+	}
+	vAssert("connection-stays-in-the-last-selected-database", c.selectedDb == cur)
+	// the observer reads every database
+	for _, idx := range indexes {
+		vCmd(obs, "SELECT", vItoa(idx))
+		g := vCmd(obs, "GET", "k")
+		if v, ok := dbs[idx]["k"]; ok {
+			vAssert("observer-sees-the-write-in-the-right-database", vIsBulk(g, v))
+		} else {
+			vAssert("observer-sees-no-key-where-none-was-written", vIsNil(g))
+		}
+	}
+	// and the connection itself goes on in the selected database
+	g := vCmd(c, "GET", "k")
+	if v, ok := dbs[cur]["k"]; ok {
+		vAssert("after-exec-own-database", vIsBulk(g, v))
+	} else {
+		vAssert("after-exec-own-database-missing", vIsNil(g))
+	}
+}
